@@ -12,7 +12,7 @@
     the correspondence check enforces it on the implementation's traces and
     snapshots. *)
 From Coq Require Import List NArith ZArith String Bool.
-From Kismet Require Import FS.Fs FS.Prog Ops.Ops Spec.ClassMon Proofs.RejectProofs Spec.Confine.
+From Kismet Require Import FS.Fs FS.Prog Ops.Ops Spec.ClassMon Proofs.RejectProofs Spec.Confine Conc.Pool Proofs.PoolLift.
 Import ListNotations.
 
 Definition no_mutating_path_call (tr : list event) : Prop :=
@@ -29,6 +29,13 @@ Proof.
   destruct (run _ w o) as [[[a w'] o'] tr]. destruct H as [_ H].
   eapply Forall_impl; [|exact H]. intros [] Hev; auto. apply nomut_empty, Hev.
 Qed.
+
+(** The same inside ANY pool of concurrent participants, under ANY schedule, at
+    any point (finished or not): interference by others is just another environment. *)
+Theorem C15_read_only_api_in_any_pool : forall stack chk k,
+  match chk with Some ck => chk_nm ck | None => True end ->
+  class_in_any_pool nomut (ro_get stack chk k) /\ class_in_any_pool nomut (ro_touch stack k).
+Proof. intros stack chk k Hc. split; eapply allc_pool; [apply nm_ro_get, Hc|apply nm_ro_touch]. Qed.
 
 Theorem C15_read_only_api_touch : forall stack k,
   forall w o, let '(_, _, _, tr) := run (ro_touch stack k) w o in no_mutating_path_call tr.
